@@ -84,6 +84,18 @@ Proof.
    do 2 f_equal; apply map2_ext; intros; apply greedy_select_agent_bridge).
 Qed.
 
+(* _init_population: exactly population_size agents, one per submitted evaluation, in every mode
+   (a pool returns the results in some completion order: a permutation) *)
+Variable init_draw : nat -> A.
+Lemma init_population_size pop P m : (forall l, Permutation l (pool_perm l)) ->
+  length (gen_init_population A pool_perm init_draw pop P m) = P /\
+  Permutation (gen_init_population A pool_perm init_draw pop P m) (map init_draw (seq 0 P)).
+Proof.
+  intros Hp. unfold gen_init_population, gen_generate_agents. destruct (mode_eqb m SERIAL).
+  - split; [rewrite map_length, seq_length; reflexivity|apply Permutation_refl].
+  - split; [rewrite <- (Permutation_length (Hp _)), map_length, seq_length; reflexivity|apply Permutation_sym, Hp].
+Qed.
+
 Lemma extend_and_trim_bridge pop new p :
   gen_extend_and_trim_population A cost pop new p = extend_and_trim cost p pop new.
 Proof.
